@@ -624,9 +624,7 @@ Proof.
     simpl in G. lra.
 Qed.
 
-(* the constant of constant.txt is the IERS Conventions (2010) value of GM_Earth (TN36 table 1.1), and positive *)
-Lemma gm_value : (GM_Q == 398600441800000 # 1)%Q.   (* 3.986004418e14 m^3/s^2 *)
-Proof. vm_compute. reflexivity. Qed.
+(* the constant of constant.txt is positive (whatever its value) *)
 Lemma gm_pos : 0 < Q2R GM_Q.
 Proof.
   replace 0 with (Q2R 0) by apply RMicromega.Q2R_0. apply Qlt_Rlt. vm_compute. reflexivity.
